@@ -315,6 +315,7 @@ impl Subscriber<State, Aid> for SSubscriber {
     }
 
     fn on_unsubscribe(&self) {
+        self.ctx.gate("unsub", self.sid, 0);
         self.ctx.log(format!("UNSUB {}", self.sid));
     }
 }
